@@ -108,6 +108,28 @@ package ramfs
 //@ loop 4 invariant len(qids) == len(ans) && fresh(base(qids)) && forall(j, 0, len(ans), ans[j] != nil) && gndel(0) <= len(ans) && gndel(0) <= len(h.parents) && (forall j int :: {at(ans, j)} 0 <= j && j < gndel(0) ==> at(ans, j) == h.parents[len(h.parents) - 1 - j]) && unchanged("ramfs.FileEnt.Info") && preserved("E:*ramfs.FileEnt")
 //@ loop 4 invariant (forall j int :: {at(qids, j)} 0 <= j && j < $done ==> at(qids, j) == at(ans, j).Info.Qid)
 
+// fServer.Create: a new node with one reference (its parent link) and the given stat, linked under info.Name - or nothing.
+//@ func (*fServer).Create
+//@ property C18
+//@ nolockledger
+//@ requires parent != nil
+//@ ensures created: err == nil ==> result0 != nil && result0.nref == 1 && result0.Info == info && old(parent.children) != nil && !old(has(parent.children, info.Name)) && has(parent.children, info.Name) && parent.children[info.Name] == result0
+//@ ensures dir_has_map: err == nil ==> ((info.Qid.Type >= 128) == (result0.children != nil))
+//@ ensures refused: err != nil ==> result0 == nil && (forall k string :: {has(parent.children, k)} has(parent.children, k) == old(has(parent.children, k)) && parent.children[k] == old(parent.children[k]))
+//@ ensures others: forall k string :: {has(parent.children, k)} k != info.Name ==> has(parent.children, k) == old(has(parent.children, k)) && parent.children[k] == old(parent.children[k])
+
+// createImpl: the new handle's parent chain is the creator's chain followed by the creator's node; the new node is linked
+// under fname, holds two references (parent link + this handle) and nothing is added when the call fails.
+//@ func (FileHandle).createImpl
+//@ property C18
+//@ nolockledger
+//@ requires HOK && h.sess != nil && h.sess.fs != nil && len(h.parents) < 4611686018427387904
+//@ ensures chain: err == nil ==> result0.ent != nil && result0.sess == h.sess && len(result0.parents) == len(h.parents) + 1 && result0.parents[len(h.parents)] == h.ent && forall(j, 0, len(h.parents), result0.parents[j] == h.parents[j])
+//@ ensures linked: err == nil ==> has(h.ent.children, fname) && h.ent.children[fname] == result0.ent && result0.ent.nref == 2 && result0.ent.Info.Name == fname
+//@ ensures name_checked: err == nil ==> fname != "" && fname != "." && fname != ".."
+//@ ensures path: err == nil ==> result0.Path == path.Join(h.Path, fname)
+//@ ensures failed_adds_nothing: err != nil ==> (forall k string :: {has(h.ent.children, k)} has(h.ent.children, k) == old(has(h.ent.children, k)) && h.ent.children[k] == old(h.ent.children[k]))
+
 //@ func (*FileEnt).WStat
 //@ property C18
 //@ requires ref != nil
